@@ -358,6 +358,18 @@ Proof.
     apply Hne. rewrite <- (rev_involutive l), Er. reflexivity.
 Qed.
 
+(* the answer with a chromosome-ends file is the plain answer with the extension pass applied
+   to each strand (so extension_only_last compares the two answers) *)
+Theorem extension_of_plain name lines cl sb ends :
+  get_blocks name lines None = Ok sb ->
+  chrom_ends F parse_flt parse_int cl [] = Ok ends ->
+  get_blocks name lines (Some cl) = C18_Model.mapM (ext_strand false ends) sb.
+Proof.
+  unfold C18_Model.get_blocks, C18_Model.get_blocks_with.
+  destruct (parse_blocks name lines) as [sb0|k]; cbn [bind]; [|discriminate].
+  intros H; inversion H; subst sb0. intros ->. reflexivity.
+Qed.
+
 (* ---- what is drawn ---------------------------------------------------------------- *)
 
 Definition rect_of (b : hblock) (r : str * list (F * F)) : Prop :=
